@@ -16,6 +16,21 @@ PROPS["C18"] = {
     "explanation": "lroo: loop invariant over runlen/best spec functions written from the property, ghost gap lemma by induction, cast obligation for the output dtype; croo bounded",
 }
 
+PROPS["C17"] = {
+    "modules": ["contracts.ops_stats"],
+    "contracts": ["ghost:contracts/ghost_stats.py::group_gap", "hdc/algo/ops/stats.py::rolling_sum", "hdc/algo/ops/stats.py::mean_grp"],
+    "standin": True,
+    "level": "proof",
+    "trusted": ["z3 5.1 / cvc5 1.0.3", "boolean-mask read = compress / write = scatter along the strictly increasing enumeration of the true positions (assumed numpy contract)",
+                "xarray.apply_ufunc / result trimming in the accessor: bounded stand-in only"],
+    "not_proved": ["accessor-level trimming and nodata resolution: bounded stand-in", "independence from the sentinel value: follows from the proved functional postconditions; additionally checked by the stand-in on sentinel pairs",
+                   "float32 accumulation exactness (model R treats floats as reals)"],
+    "assumptions": ["floats are exact reals (model R); window_size is integral"],
+    "level_text": "rolling_sum and mean_grp: the property's trichotomy / grouped-mean postconditions are stated over spec functions written from the statement and every VC from the real AST (two nested loops each, compress/scatter, ghost gap lemma) is discharged for all lengths, windows, labelings and nodata placements; accessor plumbing and dtype matrix are covered by an exhaustive small-domain stand-in (bounded)",
+    "level_note": "trusted: z3/cvc5, assumed numpy mask contracts, floats-as-reals (model R), Numba faithful (C13)",
+    "explanation": "nested-loop invariants over vsum/vsumv/cntv/gsum/gcnt spec functions; ghost lemma for foreign-group gaps",
+}
+
 ALL = ["C%02d" % i for i in range(1, 21)]
 NOT_APPLICABLE = {
     "C13": "statement about Numba's type inference/lowering and the ctypes binding of SciPy kernels (the translator), not about functions of /repo: no contract on hdc-algo source can establish or refute it; it is the stated assumption of every proof here",
